@@ -19,8 +19,12 @@ def number(rng, cfg) -> str:
         return str(rng.randint(13, 9999))
     if r < 0.9 and cfg.get("floats", True):
         return rng.choice(["0.5", "1.5", "2.5", "0.25", "3.75", "10.0", "0.1", "7.2", ".5", "4."])
-    if r < 0.95:
+    if r < 0.94:
         return "0"
+    if r < 0.97 and cfg.get("floats", True):
+        # magnitudes at which float formatting changes style
+        # (no huge decimals: util.factor loops up to sqrt(value), which is a cost, not a property)
+        return rng.choice(["0.00002", "0.0001", "0.000001", "0.00000007", "0.1", "1234567.125"])
     return str(rng.randint(10 ** 9, 10 ** 12))
 
 
@@ -73,6 +77,11 @@ def expr(rng, cfg, d) -> str:
         return atom(rng, cfg, 0)
     r = rng.random()
     s = sp(rng, cfg)
+    if rng.random() < 0.06:
+        # twins: the same sub-expression on both sides of an operator
+        t = expr(rng, cfg, d - 1)
+        op = rng.choice(["-", "-", "+", "/", "*", "^"])
+        return rng.choice([f"({t}){s}{op}{s}({t})", f"{t}{s}{op}{s}({t})", f"{t}{s}{op}{s}{t}"])
     if r < 0.3:
         op = rng.choice("++-")
         return expr(rng, cfg, d - 1) + s + op + s + expr(rng, cfg, d - 1)
